@@ -210,3 +210,41 @@ def check_cached_key_pairing(repo, chk, rule="B-cachekey", only_key=None):
                 line_, bad = bad
                 chk.violation(rule, f.key, "pairing:%s" % key, "%s: %s - data['%s'] is produced by %s once for all chains, the partner list follows the current selection: after set_used_chains / partial sums / fit fractions the couplings of one chain are contracted with the cached part of another (the strategy no longer returns the eager density)" % (f.qual, bad, key, live[0].qual), file=f.mod.rel, line=line_)
     chk.instance(rule, "%d cached per-chain keys (%s), %d live consumers interpreted" % (len(producers), ", ".join(sorted(producers)), n_checked), nontrivial=False)
+
+
+def check_cached_shape_selection(repo, chk, rule="K-idx"):
+    """the chains whose line shape is frozen into the cached data are the configured ones - the empty list included"""
+    from ..sym import PyFunc
+
+    chk.rule(rule, "get_cached_shape_idx (every class that defines it) interpreted on three chains (chain 1 with a floating line shape): a configured selection - [0, 2], [2] and the EMPTY list `cache no line shape` - is returned as it is; only None selects the automatic choice (the used chains whose shapes are all fixed)")
+    fns = [g for g in repo.func_by_name.get("get_cached_shape_idx", []) if g.cls is not None and "/tests/" not in g.mod.rel]
+    if not fns:
+        raise AnalysisError("anchor vanished: get_cached_shape_idx")
+    for fn in fns:
+        bad = None
+
+        class _Tok(str):
+            tok_attrs = None
+
+        def chain(k):
+            core = _Tok("core%d" % k)
+            core.tok_attrs = {"is_fixed_shape": PyFunc(lambda k_=k: k_ != 1)}
+            d = _Tok("decay%d" % k)
+            d.tok_attrs = {"core": core}
+            return [d]
+
+        for conf, want in (([sp.Integer(0), sp.Integer(2)], [0, 2]), ([sp.Integer(2)], [2]), ([], []), (None, [0, 2])):
+            dg = SelfObj(repo.cls("tf_pwa/amp/core.py::DecayGroup"), {"chains_idx": [sp.Integer(0), sp.Integer(1), sp.Integer(2)], "chains": [chain(0), chain(1), chain(2)]})
+            so = SelfObj(fn.cls, {"cached_shape_idx": conf, "decay_group": dg})
+            tr = Translator(repo, hooks={"allow_attr_store": True}, max_depth=2)
+            try:
+                got = tr.call_fn(fn, [], self_obj=so)
+            except Unmodelled as e:
+                raise AnalysisError("%s cannot be interpreted (configured %s): %s" % (fn.qual, conf, e))
+            got_l = [int(x) for x in got] if isinstance(got, (list, tuple)) else got
+            if got_l != want and bad is None:
+                bad = "configured cached_shape_idx = %s gives %s, expected %s" % (conf, got_l, want)
+        chk.oblige(rule, "%s returns the configured selection ([0, 2], [2], []) and the automatic one for None" % fn.qual, bad is None)
+        if bad:
+            chk.violation(rule, fn.key, "selection", "%s: %s - with `cached_shape_idx: []` (cache no line shape) the line shapes of the fixed-shape chains are frozen into the cached data all the same, and the cached evaluation no longer follows a later change of those masses / widths (it differs from eager evaluation)" % (fn.qual, bad), file=fn.mod.rel, line=fn.lineno)
+    chk.require_count(rule, 1)
